@@ -47,6 +47,9 @@ type C08Scenario struct {
 	Static  []Update `json:"static,omitempty"` // bootstrap: kind=static uses Svc, CfgID, Added
 	History []Update `json:"history"`
 	Tasks   int      `json:"tasks,omitempty"` // >1: updates of different streams are delivered by separate tasks (dependency / config / endpoint streams)
+	// LateController: the controller's event loop only starts once the store cannot make progress without it
+	// (event channel full) or has accepted the whole history
+	LateController bool `json:"late_controller,omitempty"`
 }
 
 func (c08) ID() string              { return "C08" }
@@ -137,6 +140,24 @@ func (p c08) Gen(r *simhook.Rand, tier string, idx int) harness.Scenario {
 	}
 	if r.Chance(1, 2) {
 		sc.Tasks = 3
+	}
+	if r.Chance(1, 4) {
+		// class "slow-controller": a long, order-sensitive history (the same endpoints added and removed again and
+		// again) against a controller that is far behind
+		sc.Class = "slow-controller"
+		sc.LateController = true
+		sc.History = []Update{{Kind: "dep-add", Svc: 0}, {Kind: "config", Svc: 0, CfgID: 1}, {Kind: "endpoints", Svc: 0, Added: []EP{{Addr: 0}}}}
+		for i := 0; i < 30+r.Intn(60); i++ {
+			a := 1 + r.Intn(3)
+			if r.Chance(1, 2) {
+				sc.History = append(sc.History, Update{Kind: "endpoints", Svc: 0, Added: []EP{{Addr: a}}})
+			} else {
+				sc.History = append(sc.History, Update{Kind: "endpoints", Svc: 0, Removed: []EP{{Addr: a}}})
+			}
+			if r.Chance(1, 10) {
+				sc.History = append(sc.History, Update{Kind: "config", Svc: 0, CfgID: 2 + i})
+			}
+		}
 	}
 	return sc
 }
@@ -287,6 +308,7 @@ func (p c08) Run(t *testing.T, s harness.Scenario) harness.Outcome {
 	var src *config.VerifSource
 	w := &taskWorld{}
 	var setupErr error
+	ctlStarted := false
 	name := world.UniqueName("c08x")
 	delivered := 0
 	w.setup = func(tw *taskWorld) {
@@ -313,7 +335,10 @@ func (p c08) Run(t *testing.T, s harness.Scenario) harness.Outcome {
 			if setupErr != nil {
 				return
 			}
-			ctl.Start()
+			if !sc.LateController {
+				ctl.Start()
+				ctlStarted = true
+			}
 			deliver := func(u Update) {
 				switch u.Kind {
 				case "dep-add":
@@ -341,6 +366,15 @@ func (p c08) Run(t *testing.T, s harness.Scenario) harness.Outcome {
 				deliver(u)
 			}
 		})
+	}
+	w.check = func(tw *taskWorld) *simrt.Violation {
+		if sc.LateController && !ctlStarted && ctl != nil && len(tw.rt.Parked()) == 0 {
+			// nothing can run any more without the controller (or everything was accepted): start it now
+			ctlStarted = true
+			c := ctl
+			tw.Go("harness:controller-start", func() { c.Start() })
+		}
+		return nil
 	}
 	judged := false
 	w.done = func(tw *taskWorld) bool {
